@@ -339,7 +339,7 @@ unsigned int Model::AddBody(
   } else if (mJoints[mJoints.size() - 1].mJointType == JointTypeCustom) {
     unsigned int custom_index = mJoints[mJoints.size() - 1].custom_joint_index;
     lambda_q_last = lambda_q_last
-                    + mCustomJoints[mCustomJoints.size() - 1]->mDoFCount;
+                    + mCustomJoints[custom_index]->mDoFCount;
   }
 
   for (unsigned int i = 0; i < joint.mDoFCount; i++) {
